@@ -10,6 +10,7 @@ MIN = timedelta(minutes=1)
 
 
 def hours_spec(m, r):
+    """the resource's OWN hours (via shift or inline); None = the project default applies"""
     if "shift" in r:
         return m["shifts"][r["shift"]]
     if "inline" in r:
@@ -51,9 +52,19 @@ class Calendar:
         self.m = m
         self.r = r
         self.res = m["res"]
-        self.tab = week_table(hours_spec(m, r))
-        self.zone = ZoneInfo(r["tz"]) if (r.get("tz") and hours_spec(m, r) is not None) else None
+        own = hours_spec(m, r)
+        # without hours of its own a resource follows the project default: the hours declared in the project header
+        # if there are any, else Mon-Fri 9-17 - both on the project clock
+        self.tab = week_table(own if own is not None else m.get("proj_hours"))
+        self.zone = ZoneInfo(r["tz"]) if (r.get("tz") and own is not None) else None
         self.off = []
+        if "shift" in r:
+            for s, e in m.get("shift_leaves", {}).get(r["shift"], []):
+                self.off.append(interval_of(s, e))
+        gm = {g["id"]: g for g in m.get("groups", [])}
+        for gid in gen.group_chain(m, r):
+            for s, e in gm[gid].get("leaves", []) + gm[gid].get("vacs", []):
+                self.off.append(interval_of(s, e))
         for s, e in m.get("vacations", []):
             self.off.append(interval_of(s, e))
         for typ, s, e in m.get("gleaves", []):
